@@ -71,6 +71,33 @@ HARNESSES += [
      'bounds': {'quick': {'unwind': 8, 'cap': 600}}},
 ]
 
+# ---- merge_from over whole (tiny) databases ----------------------------------------------------------------------
+_LOAD_LATEST = '_ZN19InterrogateDatabase11load_latestEv'
+_REALLOC_INT = '_ZNSt6vectorIiSaIiEE17_M_realloc_insertIJRKiEEEvN9__gnu_cxx17__normal_iteratorIPiS1_EEDpOT_'
+_FAT_NODES = ['--max-field-sensitivity-array-size', '512']     # records live in std::map nodes (408-byte membuf), see cat/c20.py
+_MF_TUS = [_DB + 'interrogateDatabase.cxx', _DB + 'interrogateType.cxx', _DB + 'indexRemapper.cxx', _DB + 'interrogateComponent.cxx',
+           _DB + 'interrogateElement.cxx', _DB + 'interrogateFunctionWrapper.cxx']
+
+def _tmp(id, b, o):
+    return dict(id=id, property='C13', src='c13_merge_from.cxx', entry='harness_c13_merge_from', tus=_MF_TUS,
+         cut=[_LOAD_LATEST, _REALLOC_INT], cbmc_flags=_FAT_NODES, tuflags=_ASSERTS, hflags=_ASSERTS,
+         desc='merge_from', domain='', oracle='',
+         bounds={'quick': {'defs': {'WITH_B': b, 'ORDERS': o}, 'unwind': 10, 'unwindset': {'ll_memmove.0': 40, 'll_memcpy.0': 40}, 'cap': 600}})
+_ERASE = '_ZNSt8_Rb_treeINSt7__cxx1112basic_stringIcSt11char_traitsIcESaIcEEESt4pairIKS5_iESt10_Select1stIS8_ESt4lessIS5_ESaIS8_EE8_M_eraseEPSt13_Rb_tree_nodeIS8_E'
+def _lk(id, kind, early, unwind=10):
+    return dict(id=id, property='C13', src='c13_lookups.cxx', entry='harness_c13_lookups', tus=_MF_TUS + [_DB + 'interrogateManifest.cxx'],
+         cut=[_LOAD_LATEST, _REALLOC_INT], cbmc_flags=_FAT_NODES, tuflags=_ASSERTS, hflags=_ASSERTS,
+         desc='lookups', domain='', oracle='',
+         bounds={'quick': {'defs': {'KIND': kind, 'EARLY': early}, 'unwind': unwind, 'unwindset': {'ll_memmove.0': 40, 'll_memcpy.0': 40, _ERASE: 6}, 'cap': 600}})
+HARNESSES += [_lk('c13_l1', 2, 0)]
+HARNESSES += [_tmp('c13_t1', 0, 3), _tmp('c13_t2', 1, 1), _tmp('c13_t3', 1, 2)]
+HARNESSES += [
+    dict(id='c13_merge_from', property='C13', src='c13_merge_from.cxx', entry='harness_c13_merge_from', tus=_MF_TUS,
+         cut=[_LOAD_LATEST, _REALLOC_INT], cbmc_flags=_FAT_NODES, tuflags=_ASSERTS, hflags=_ASSERTS,
+         desc='merge_from', domain='', oracle='',
+         bounds={'quick': {'defs': {'WITH_B': 0, 'ORDERS': 1}, 'unwind': 10, 'unwindset': {'ll_memmove.0': 40, 'll_memcpy.0': 40}, 'cap': 600}}),
+]
+
 PROPERTY_INFO = {'C13': {'level': 'model_checking',
          'explanation': 'bounded symbolic execution (CBMC) of the real merge / module-registration code of libinterrogatedb lowered from /repo',
          'outside': 'reading the databases from real files (C12 covers the file format; load_latest/read are not executed here); '
